@@ -213,18 +213,19 @@ func (g *gen) wrap(b *fileB, ind, budget int, tag *string, inner func(ind int) [
 
 var callForms = []string{"stmt", "assign", "ret-plus", "ret-bare", "cond", "cond-block", "closure-var",
 	"arg-of-builtin", "spread", "array-elt", "map-elt", "ternary", "compound", "selector-call", "logical",
-	"unary", "index-of-result", "ml-args", "ml-array", "ml-iife", "callback", "callback-assign"}
+	"unary", "index-of-result", "ml-args", "ml-array", "ml-iife", "callback", "callback-assign", "callback-stdlib"}
 
 // emitCall writes the statement calling callee (an expression naming the next
 // function) and returns the expected trace entries it contributes.
 func (g *gen) emitCall(b *fileB, ind int, callee string, inMain bool, form *string) []expFrame {
 	n := len(callForms)
+	const nCB = 3
 	if !(g.allowCB && inMain) {
-		n -= 2
+		n -= nCB
 	}
 	k := g.pick("callform", n)
 	if g.allowCB && inMain && g.pick("prefer-cb", 3) == 0 {
-		k = len(callForms) - 2 + g.pick("cbform", 2)
+		k = len(callForms) - nCB + g.pick("cbform", nCB)
 	}
 	*form = callForms[k]
 	one := func(l int) []expFrame { return []expFrame{{File: b.name, Lo: l, Hi: l}} }
@@ -291,6 +292,11 @@ func (g *gen) emitCall(b *fileB, ind int, callee string, inMain bool, form *stri
 	case "callback":
 		l := b.add(ind, "CALL("+callee+", a)")
 		return []expFrame{{File: b.name, Lo: l, Hi: l, CB: true}}
+	case "callback-stdlib": // a stdlib function (Go) invoking a script closure: two entries
+		l := b.add(ind, g.id("y")+` := strings.IndexFunc("xy", func(ch) {`)
+		in := b.add(ind+1, "return "+c+" == "+g.fold())
+		h := b.add(ind, "})")
+		return []expFrame{{File: b.name, Lo: l, Hi: h, CB: true}, {File: b.name, Lo: in, Hi: in}}
 	case "callback-assign":
 		l := b.add(ind, g.id("y")+" := CALL("+callee+", a) + "+g.fold())
 		return []expFrame{{File: b.name, Lo: l, Hi: l, CB: true}}
@@ -453,6 +459,7 @@ func generate(rt *rapid.T, allowCB, allowTry bool) *scen {
 	if allowCB {
 		g.filler(mainB, 0, 1)
 		mainB.add(0, "global CALL")
+		mainB.add(0, `strings := import("strings")`)
 	}
 	g.filler(mainB, 0, 2)
 	bareTop := importAt == depth && g.pick("bare-module-top", 2) == 1
